@@ -7,7 +7,7 @@ property's check against it and expects exit 1. --suite also runs the repository
 for the change to count as "survives the existing tests")."""
 import concurrent.futures, glob, json, os, shutil, subprocess, sys, tempfile, time
 args = sys.argv[1:]
-tier, suite, seeded, inplace, jobs = "quick", False, False, False, 4
+tier, suite, seeded, inplace, jobs, keep = "quick", False, False, False, 4, None
 while args and args[0].startswith("-"):
     a = args.pop(0)
     if a == "--tier": tier = args.pop(0)
@@ -15,6 +15,7 @@ while args and args[0].startswith("-"):
     elif a == "--seeded": seeded = True
     elif a == "--inplace": inplace = True; jobs = 1
     elif a == "-j": jobs = int(args.pop(0))
+    elif a == "--keep-replays": keep = args.pop(0)
 prop = args[0]; names = args[1:]
 env = dict(os.environ, GOFLAGS="-mod=mod", GOPROXY="off", GOSUMDB="off", GOTOOLCHAIN="local")
 todo = []
@@ -62,6 +63,11 @@ def one(item):
             subprocess.run(["git", "-C", "/verif", "checkout", "--", "evidence"], stderr=subprocess.DEVNULL)
         else:
             subprocess.run(["git", "-C", "/repo", "worktree", "remove", "--force", repo])
+            if keep:
+                for root, _, files in os.walk(os.path.join(out, "replays")):
+                    for fn in files:
+                        os.makedirs(os.path.join(keep, p), exist_ok=True)
+                        shutil.copy(os.path.join(root, fn), os.path.join(keep, p, n + "--" + fn))
             shutil.rmtree(out, ignore_errors=True)
 
 with concurrent.futures.ThreadPoolExecutor(jobs) as ex:
